@@ -32,7 +32,8 @@ def run(report: Report, tier, seed):
     # P: option-default functions
     run_contracts(report, [("contracts.c03_options", "OptimizeScratchSlots", "O3.2a"),
                            ("contracts.c03_options", "UseFramePointers", "O3.2b"),
-                           ("contracts.c03_optimizer", "HasLoadDependencies", "O3.5")])
+                           ("contracts.c03_optimizer", "HasLoadDependencies", "O3.5"),
+                           ("contracts.c03_optimizer", "ApplySlotToStack", "O3.4")])
     from . import opt_native
     oc, of = opt_native.check_has_load_dependencies()
     report.bounded.append(Bounded(function="pyteal.compiler.optimizer.optimizer._has_load_dependencies", contract="True iff another load of the slot exists anywhere in the routine",
@@ -102,8 +103,13 @@ def run(report: Report, tier, seed):
                                    "B: whole-program option independence on generated programs")
 
     def search(fn, obs):
-        if "_apply_slot_to_stack" in fn and known:
-            return known[0]
+        if "_apply_slot_to_stack" in fn:
+            if {o.id for o in obs} == {"O3.4/removed-slots-are-stored-nowhere-else"}:
+                return known[0] if known else opt_native.multistore_witness()      # clause (d): the recorded finding's own witness
+            # any other clause of that contract: the witness has to come from the harnesses that exercise the optimiser natively
+            if sbad:
+                return {"input": {"scenario": sbad[0]["job"]}, "what": sbad[0]["problems"][0]["what"]}
+            return fails[0] if fails else None
         if "_has_load_dependencies" in fn:
             return {"input": of[0]} if of else None
         return fails[0] if fails else None
@@ -113,9 +119,15 @@ def run(report: Report, tier, seed):
     if of and not any("_has_load_dependencies" in v.what for v in report.violations):
         report.violation(Violation(key=f"opt-native:{of[0]['block1']}:{of[0]['block2']}", what=f"_has_load_dependencies wrong on {of[0]}", replay={"input": of[0]}, confirmed_native=True))
     # the refuted optimiser obligation and its bounded witnesses are one finding
+    # the recorded finding is exactly: clause (d) of the _apply_slot_to_stack contract fails and nothing else of that contract does
+    D_CLAUSE = "O3.4/removed-slots-are-stored-nowhere-else"
     for v in report.violations:
-        if "_apply_slot_to_stack" in v.what:
-            v.key = KNOWN_KEY
+        ids = [x["id"] for x in ((v.replay or {}).get("refuted") or [])] if isinstance(v.replay, dict) else []
+        if ids and all(i.startswith("O3.4/") for i in ids):
+            if ids == [D_CLAUSE]:
+                v.key = KNOWN_KEY
+            else:
+                v.key = next(i for i in ids if i != D_CLAUSE)
     if known and not any(v.key == KNOWN_KEY for v in report.violations):
         k = known[0]
         report.violation(Violation(key=KNOWN_KEY, what="optimised program leaves extra values on the stack: " + k["mismatches"][0]["what"][:200],
